@@ -61,6 +61,7 @@ class Sim:  # pylint: disable=too-many-instance-attributes
         self.max_io = 0
         self.max_open_data = 0
         self.io_watch = False
+        self.io_trace = None  # list of (rel path, file position, length) of every read when enabled
         self.fsyncs = []  # (step, rel)
         self.probes = collections.Counter()
 
@@ -193,6 +194,8 @@ class SimFile:
         data = self._raw.read(size)
         if self._sim.io_watch:
             self._sim.max_io = max(self._sim.max_io, len(data))
+        if self._sim.io_trace is not None and data:
+            self._sim.io_trace.append((self.rel, self._raw.tell() - len(data), len(data)))
         return data
 
     def write(self, data):
